@@ -54,6 +54,13 @@ func TestVerifC12Handle(t *testing.T) {
 		if sr.Intn(2) == 0 {
 			f.CaptivePortal, f.CaptivePortalNorm, f.CaptivePortalOK = model.S("https://portal.example/a"), "https://portal.example/a", model.Yes
 		}
+		// our own RA is not static: a deprecated prefix and route count down, so the
+		// RA a peer is compared with must be the one built at that moment
+		moving := sr.Intn(2) == 0
+		if moving {
+			f.Prefixes = append(f.Prefixes, model.PrefixSt{Prefix: model.MkCIDR("2001:db8:dead::/64"), Deprecated: model.B(true), Valid: model.D(int64(30 * time.Hour)), Preferred: model.D(int64(28 * time.Hour))})
+			f.Routes = append(f.Routes, model.RouteSt{Prefix: model.MkCIDR("2001:db8:beef::/48"), Deprecated: model.B(true), Lifetime: model.D(int64(29 * time.Hour))})
+		}
 		ifi, exp, err := vParseOne(d)
 		if err != nil {
 			r.Violation(id, "harness", err.Error(), nil)
@@ -82,44 +89,65 @@ func TestVerifC12Handle(t *testing.T) {
 				viol, cls = "cannot build our RA: "+oerr.Error(), "harness"
 				return
 			}
+			var older []*ndp.RouterAdvertisement
 			shadow := map[string]float64{}
 			for k := 0; k < nmsg && viol == ""; k++ {
-				var theirs *ndp.RouterAdvertisement
-				switch sr.Intn(4) {
-				case 0: // our own RA after a wire round trip: nothing to report
-					theirs, _ = vRoundTrip(ours)
-				case 1: // our RA with one or two fields perturbed
-					theirs, _ = vRoundTrip(ours)
-					if theirs != nil {
-						switch sr.Intn(5) {
-						case 0:
-							theirs.CurrentHopLimit = 33
-						case 1:
-							theirs.ManagedConfiguration = !theirs.ManagedConfiguration
-						case 2:
-							for _, o := range theirs.Options {
-								if p, ok := o.(*ndp.PrefixInformation); ok {
-									p.ValidLifetime = 12 * time.Hour
-								}
-							}
-						case 3:
-							for _, o := range theirs.Options {
-								if p, ok := o.(*ndp.RecursiveDNSServer); ok {
-									p.Lifetime = 2 * time.Hour
-									p.Servers = append(p.Servers, netip.MustParseAddr("fd00::53"))
-								}
-							}
-						case 4:
-							for _, o := range theirs.Options {
-								if p, ok := o.(*ndp.RouteInformation); ok {
-									p.RouteLifetime = 7 * time.Hour
-								}
-							}
-						}
-						theirs, _ = vRoundTrip(theirs)
+				if moving {
+					// let the countdown move, then rebuild what "ours" is right now
+					time.Sleep(time.Duration(1+sr.Intn(20)) * time.Minute)
+					// continue at a whole second of the clock: the epoch and the configured
+					// lifetimes are whole seconds, so the remaining lifetimes are too and
+					// survive the wire round trip unchanged
+					time.Sleep(time.Until(time.Now().Truncate(time.Second).Add(time.Second)))
+					h.settle()
+					older = append(older, ours)
+					ours, _, oerr = ifi.RouterAdvertisement(true)
+					if oerr != nil {
+						viol, cls = "cannot build our RA: "+oerr.Error(), "harness"
+						return
 					}
-				default:
-					theirs, _ = vRoundTrip(vRandomRA(sr))
+				}
+				var theirs *ndp.RouterAdvertisement
+				if moving && len(older) > 0 && sr.Intn(3) == 0 {
+					// a peer that still advertises what we advertised some minutes ago
+					theirs, _ = vRoundTrip(older[sr.Intn(len(older))])
+				} else {
+					switch sr.Intn(4) {
+					case 0: // our own RA after a wire round trip: nothing to report
+						theirs, _ = vRoundTrip(ours)
+					case 1: // our RA with one or two fields perturbed
+						theirs, _ = vRoundTrip(ours)
+						if theirs != nil {
+							switch sr.Intn(5) {
+							case 0:
+								theirs.CurrentHopLimit = 33
+							case 1:
+								theirs.ManagedConfiguration = !theirs.ManagedConfiguration
+							case 2:
+								for _, o := range theirs.Options {
+									if p, ok := o.(*ndp.PrefixInformation); ok {
+										p.ValidLifetime = 12 * time.Hour
+									}
+								}
+							case 3:
+								for _, o := range theirs.Options {
+									if p, ok := o.(*ndp.RecursiveDNSServer); ok {
+										p.Lifetime = 2 * time.Hour
+										p.Servers = append(p.Servers, netip.MustParseAddr("fd00::53"))
+									}
+								}
+							case 4:
+								for _, o := range theirs.Options {
+									if p, ok := o.(*ndp.RouteInformation); ok {
+										p.RouteLifetime = 7 * time.Hour
+									}
+								}
+							}
+							theirs, _ = vRoundTrip(theirs)
+						}
+					default:
+						theirs, _ = vRoundTrip(vRandomRA(sr))
+					}
 				}
 				if theirs == nil {
 					continue
